@@ -8,6 +8,7 @@ mod exec;
 #[macro_use]
 mod exec_cont;
 mod exec_ext;
+mod exec_own;
 mod oracle_cont;
 mod gen_cont;
 mod gen_edge;
@@ -348,6 +349,36 @@ fn cont_props(prop: &str, tier: &str, seed: u64, threads: usize, out: &str) {
     write_outputs(out, &ctxs, extra);
 }
 
+fn own_props(tier: &str, seed: u64, threads: usize, out: &str) {
+    let quick = tier == "quick";
+    let mut ctxs = new_ctxs(threads, &["c19"]);
+    let all = ["di", "sdi", "un", "sun"];
+    let (nh, nc) = if quick { (400, 60) } else { (10000, 80) };
+    exec::new_section();
+    let n = ctxs.len();
+    std::thread::scope(|s| {
+        for (t, ctx) in ctxs.iter_mut().enumerate() {
+            s.spawn(move || {
+                let mut i = t;
+                while i < nh && !exec::stopped() {
+                    let mut rng = Rng::new(seed.wrapping_mul(61).wrapping_add(i as u64));
+                    let nn = 1 + rng.below(if i % 4 == 0 { 2 } else { 5 });
+                    let lines = exec_own::gen_history(&mut rng, all[i % 4], &format!("o{i}"), nn, nc);
+                    if ctx.samples.len() < 2 {
+                        ctx.samples.push(lines.iter().take(16).cloned().collect::<Vec<_>>().join(" ; "));
+                    }
+                    exec_own::run_program(&lines, ctx);
+                    ctx.count("cases");
+                    i += n;
+                }
+            });
+        }
+    });
+    let mut extra = BTreeMap::new();
+    extra.insert("random.histories".into(), format!("{nh} x ~{nc} calls"));
+    write_outputs(out, &ctxs, extra);
+}
+
 fn main() {
     if std::env::var("VERIF_DEBUG").is_err() {
         std::panic::set_hook(Box::new(|_| {}));
@@ -364,6 +395,7 @@ fn main() {
             let prop = arg(&args, "--prop", "");
             match prop.as_str() {
                 "C01" | "C02" | "C03" => edge_props(&prop, &tier, seed, threads, &out),
+                "C19" => own_props(&tier, seed, threads, &out),
                 "C11" | "C12" | "C13" | "C18" => cont_props(&prop, &tier, seed, threads, &out),
                 "C04" | "C05" | "C06" | "C07" | "C08" | "C09" | "C10" => search_props(&prop, &tier, seed, threads, &out),
                 _ => {
@@ -381,7 +413,11 @@ fn main() {
             for f in files {
                 let text = std::fs::read_to_string(&f).expect("program file");
                 let lines: Vec<String> = text.lines().filter(|l| !l.trim().is_empty() && !l.starts_with("--")).map(|l| l.to_string()).collect();
-                exec::run_program(&lines, &mut ctxs[0]);
+                if lines.iter().any(|l| l.starts_with("own.")) {
+                    exec_own::run_program(&lines, &mut ctxs[0]);
+                } else {
+                    exec::run_program(&lines, &mut ctxs[0]);
+                }
             }
             write_outputs(&out, &ctxs, BTreeMap::new());
         }
